@@ -453,7 +453,11 @@ Definition qverdict (s0 s1 : T) (qo : query * obs) : nat :=
   let agrees := obs_eqb (model_obs q s0 s1) o in
   match spec_ok q s0 s1 o with
   | Some false => 2
-  | _ => if agrees then 0 else 1
+  | _ => if agrees then 0
+         else match o with
+              | OPanic => 2      (* a panic where the (total) definition yields a value agrees with no set-theoretic definition *)
+              | _ => 1
+              end
   end.
 
 Definition verdict (c : case) : nat :=
